@@ -148,9 +148,12 @@ inline bool Futex::Awaitable::await_suspend(
   node->id = id;
   node->promise = &handle.promise();
   node->handle = handle;
+  // Once the node is linked a waker can resume and destroy this coroutine, with
+  // this awaitable inside. Keep the callback in a local before that.
+  auto on_suspend = ::std::move(_on_suspend);
   auto success = _futex->add_awaiter(node, _expected_value);
-  if (success && _on_suspend) {
-    _on_suspend({id});
+  if (success && on_suspend) {
+    on_suspend({id});
   }
   if (!success) {
     // Not suspended, nobody else knows this id. Give the slot back.
